@@ -21,7 +21,14 @@ default values of every kind (sentinels ``object()``, instances with / without `
 functions / classes / builtins / modules / lambdas, containers of such objects, nan / inf, negative and computed numbers, bytes,
 Ellipsis, strings with quotes and newlines, very long literals, module-level names spelled like parameters) also in
 ``__init__``; docstrings of every layout CPython stores unchanged (quote styles, raw, joined, summary on or below the opening
-line, first line deeper / shallower than the following, column zero, tabs, blank first / last lines, empty).
+line, first line deeper / shallower than the following, column zero, tabs, blank first / last lines, empty); in half of the
+modules parameter defaults, arguments of decorator factories (identity decorators anywhere in the stack, ``functools.lru_cache``),
+arguments of calls that compute a base class and values of class keywords are drawn from the whole expression grammar
+(vf.gen.exprs, hostile domain: operators, calls with unpacking, subscripts and slices, displays, comprehensions, lambdas,
+conditional expressions, ``:=``, f-strings with conversions and format specs) plus the spellings PEP 701 made legal (f-strings
+nested in replacement fields, in call arguments inside a field and in format specs, quotes of the enclosing literal reused),
+over names a support module next to the package makes evaluable; every drawn text is kept only if CPython evaluates it at that
+very place without error or warning, names bound by ``:=`` are unbound again by a ``del`` statement.
 Oracle: each package (unique name) is loaded statically and with ``force_inspection=True`` in
 this child; normalised skeletons are compared, allowed differences are removed *by rule*
 (dunder names the source does not assign, instance attributes, attribute docstrings, line
@@ -29,7 +36,11 @@ numbers, label vocabulary, origin of imported plain values).  Third leg: ``inspe
 of the really imported objects.  Imports from outside the package are arbitrated by CPython (both target paths
 must reach the same object; only plain values may lose their origin); names bound under ``if TYPE_CHECKING:`` only are a
 static-only difference removed by a syntactic rule.  For every module body the static member names are also compared
-with the namespace CPython built by running the module (what a wildcard import really bound).
+with the namespace CPython built by running the module (what a wildcard import really bound).  For every def / class statement
+of a compared body the statement as CPython parsed it is a witness too: the static agent must hold one decorator per decorator
+expression and one base per base expression (an expression it cannot build is dropped silently otherwise); a class with a
+computed base is judged against ``__bases__`` of the class CPython built, the label ``cached`` against the type of the object
+CPython built.
 """
 from __future__ import annotations
 
@@ -43,6 +54,7 @@ import sys
 
 from vf.checks import c02
 from vf.core.util import case_watchdog, tmp_tree
+from vf.gen import exprs as gx
 
 PROP = "C17"
 LEVEL = "exploration"
@@ -52,7 +64,8 @@ RULE = ("generated importable packages (init + 2-3 modules, optional sub-package
         "classes, TYPE_CHECKING-only imports, type parameters, undefined names, non-expressions; return annotations; wraps and "
         "identity decorators; standard-library imports; wildcard imports over every __all__ shape, chains, sub-packages, "
         "name collisions; definitions inside executed and non-executed blocks of try/except/else/finally, except*, if/elif/else, "
-        "match/case, with, for/while/else), classes with instance/static/class methods, properties, nested classes, single and cross-module "
+        "match/case, with, for/while/else; defaults, decorator-factory arguments, base-class call arguments and class keywords "
+        "drawn from the whole expression grammar incl. PEP 701 f-string spellings, kept when CPython evaluates them in place), classes with instance/static/class methods, properties, nested classes, single and cross-module "
         "inheritance, literal module/class attributes, __init__ with instance attributes, docstrings, imports of classes/"
         "functions/modules/plain values between the modules. distinct = digest of files; non-trivial = package with "
         "inheritance, a property and an intra-package import")
@@ -79,7 +92,15 @@ REQUIRED_COUNTERS = ["packages_compared", "members_compared", "functions_compare
                      "default_is_partial", "default_is_enum_member", "default_is_nan_or_inf", "default_repr_is_long", "default_has_own_repr",
                      "docstrings_vs_cpython", "doc_multiline", "doc_summary_below_opening_quotes",
                      "doc_first_line_deeper_than_a_following_one", "doc_first_line_shallower_than_following_ones", "doc_with_tabs",
-                     "doc_trailing_blank", "doc_blank_first_lines", "doc_empty_or_blank"]
+                     "doc_trailing_blank", "doc_blank_first_lines", "doc_empty_or_blank",
+                     "default_exprs_compound", "default_expr_fstring", "default_expr_nested_fstring", "default_expr_fstring_reusing_quotes",
+                     "default_expr_fstring_field_in_format_spec", "default_expr_walrus", "default_expr_lambda", "default_expr_conditional",
+                     "default_expr_comprehension", "default_expr_unpacking", "default_expr_slice", "default_expr_operator",
+                     "decorators_vs_source", "decorator_exprs_compound", "decorator_expr_nested_fstring",
+                     "decorator_expr_fstring_reusing_quotes", "decorator_expr_walrus", "decorator_expr_lambda",
+                     "decorator_expr_comprehension", "cached_label_vs_cpython", "class_bases_vs_source", "class_bases_vs_cpython",
+                     "class_base_is_call", "base_exprs_compound", "base_expr_nested_fstring", "base_expr_fstring_reusing_quotes",
+                     "base_expr_walrus", "base_expr_lambda", "base_expr_comprehension", "class_keyword_exprs_compound"]
 EXHAUSTIVE = {"quick": False, "thorough": False}
 ASSUMPTIONS = ["generated code has no import-time side effects; packages get unique names and are purged from sys.modules",
                "default values: the skeleton is name / kind / required-ness of each parameter; required-ness is judged against "
@@ -95,7 +116,14 @@ ASSUMPTIONS = ["generated code has no import-time side effects; packages get uni
                "is judged in full on the static side",
                "a name written in several branches is only generated so that the binding CPython executes is the one written last and "
                "all bindings are def / class / import statements (the optional-accelerator idiom); for assignments in if / except "
-               "blocks the visitor deliberately keeps the first one ('prefer the no-exception case'), which no agent can decide"]
+               "blocks the visitor deliberately keeps the first one ('prefer the no-exception case'), which no agent can decide",
+               "expressions of the whole grammar are evaluable through a support module written next to the package (class `Any` whose "
+               "class object and instances answer every operation with themselves and store nothing; imported, so both agents see an "
+               "alias to an external class); a drawn expression is kept only when CPython evaluates it at its place without error or "
+               "warning; names it binds with := are deleted right after the statement, so they are members for nobody",
+               "decorators and computed bases: the count (and order) of decorator / base expressions of the statement CPython parsed "
+               "is the ground truth for the static agent, __bases__ of the built class for the dynamic agent; which class a call "
+               "returns is not asked of the static agent"]
 KIND_TXT = {c02.PO: "positional-only", c02.PK: "positional or keyword", c02.VP: "variadic positional", c02.KO: "keyword-only",
             c02.VK: "variadic keyword"}
 
@@ -186,7 +214,10 @@ LITERAL_DEFAULTS = [
 
 
 def gen_default(rng: random.Random, sc: Scope) -> str:
-    """A default value: literal of any shape, an object defined or imported by the module, or a name visible at this place."""
+    """A default value: literal of any shape, an object defined or imported by the module, a name visible at this place, or
+    (in modules with the grammar header) any expression of the grammar that CPython can evaluate there."""
+    if sc.ctx.get("grammar") is not None and rng.random() < 0.3:
+        return grammar_expr(sc)
     pools = [LITERAL_DEFAULTS, LITERAL_DEFAULTS]
     if sc.defaults:
         pools.append(sc.defaults)
@@ -194,6 +225,239 @@ def gen_default(rng: random.Random, sc: Scope) -> str:
     if objs:
         pools += [objs, objs]
     return rng.choice(rng.choice(pools))
+
+
+# -- expressions of the whole grammar, made evaluable ---------------------------------------------------------------------
+# A support module next to the generated package (outside of it: for both agents its names are imports from elsewhere, like
+# the standard library's). The class ``Any`` (and each instance of it) answers every operation an expression can apply with
+# itself, so that a randomly drawn expression over it usually evaluates; a class, because both agents treat an imported
+# class alike, while a callable instance bound in a module is an attribute for one agent and a function for the other (the
+# domain restriction of DESIGN C17). ``mark`` builds identity decorators, ``base`` hands out a base class.
+ANY_MODULE = "vfc17any"
+ANY_SOURCE = '''"""Support objects for generated expressions: they accept whatever an expression does to them."""
+
+
+def _same(self, *args, **kwargs):
+    return self
+
+
+def _getattr(self, name):
+    if name.startswith("__") and name.endswith("__"):
+        raise AttributeError(name)
+    return self
+
+
+OPERATIONS = {name: _same for name in (
+    "__getitem__ __add__ __radd__ __sub__ __rsub__ __mul__ __rmul__ __matmul__ __rmatmul__ __truediv__ __rtruediv__ "
+    "__floordiv__ __rfloordiv__ __mod__ __rmod__ __pow__ __rpow__ __lshift__ __rlshift__ __rshift__ __rrshift__ __and__ "
+    "__rand__ __or__ __ror__ __xor__ __rxor__ __neg__ __pos__ __invert__ __abs__ __lt__ __le__ __gt__ __ge__").split()}
+OPERATIONS.update(
+    __getattr__=_getattr,
+    __iter__=lambda self: iter((self,)),
+    keys=lambda self: ["vfkey"],
+    __bool__=lambda self: True,
+    __len__=lambda self: 1,
+    __contains__=lambda self, item: True,
+    __index__=lambda self: 1,
+    __format__=lambda self, spec: "any",
+    # nothing can be stored: `for x.a in ...` / `for x[0] in ...` are legal comprehension targets, and state kept on these
+    # objects would make the value of a later expression depend on what was evaluated before
+    __setattr__=lambda self, name, value: None,
+    __setitem__=lambda self, key, value: None,
+)
+
+
+class AnyType(type):
+    """The class `Any` itself answers every operation with itself (calling it makes an instance)."""
+
+    locals().update(OPERATIONS)
+
+
+class Any(metaclass=AnyType):
+    """Every operation on an instance answers with the instance."""
+
+    locals().update(OPERATIONS)
+    __call__ = _same
+
+    def __init__(self, *args, **kwargs):
+        pass
+
+    def __repr__(self):
+        return "<any>"
+
+
+class Mixin:
+    """A base class that accepts class keywords."""
+
+    def __init_subclass__(cls, **kwargs):
+        super().__init_subclass__()
+
+
+def base(*args, **kwargs):
+    """A base class computed by a call."""
+    return Mixin
+
+
+def mark(*args, **kwargs):
+    """A decorator factory: the decorated object comes back unchanged."""
+    def same(obj):
+        return obj
+    return same
+'''
+GRAMMAR_HEADER = (f"from {ANY_MODULE} import Any as _va, Any as _vb\nfrom {ANY_MODULE} import mark as _vmark, base as _vbase\n"
+                  "import functools as _vft\n_vs = 'id'\n_vn = 4\n")
+GRAMMAR_NAMES = ["_va", "_va", "_vb", "_vb", "_vs", "_vn", "int", "str"]
+GRAMMAR_NUMBERS = [0, 1, 7, 12, 10 ** 30, 1.5, 0.0, 1e-07, 1e300, 2j, 0j, float("inf")]
+FTEXT_312 = ["", "", "-x", "id: ", "<", ">", " and ", "x="]
+
+
+class _EvalGen(gx.ExprGen):
+    """The full (hostile) expression grammar of vf.gen.exprs over names the grammar header binds. Left out: ``yield`` /
+    ``await`` (no expression of a def statement's header may hold them at module or class level) and integer powers /
+    shifts of constants (evaluation must stay cheap: the left operand of ``**`` / ``<<`` is a name)."""
+
+    def __init__(self, rng: random.Random, holes: float) -> None:
+        super().__init__(rng, clean=False)
+        self.p_hole = holes
+        self.holes: list[str] = []
+
+    def name(self) -> ast.Name:
+        if self.rng.random() < self.p_hole:
+            self.holes.append(f"_VFHOLE{len(self.holes)}_")  # replaced by an f-string in PEP 701 spelling after unparsing
+            return ast.Name(self.holes[-1], ast.Load())
+        return ast.Name(self.rng.choice(GRAMMAR_NAMES), ast.Load())
+
+    def constant(self, *, no_int: bool = False) -> ast.Constant:
+        node = super().constant(no_int=no_int)
+        if isinstance(node.value, (int, float, complex)) and not isinstance(node.value, bool):
+            v = self.rng.choice(GRAMMAR_NUMBERS)
+            node = ast.Constant(1.5 if no_int and type(v) is int else v)
+        return node
+
+    def g_Yield(self, d: int, leak: bool) -> ast.expr:
+        return self.expr(d, 0, leak)
+
+    g_YieldFrom = g_Await = g_Yield
+
+    def g_BinOp(self, d: int, leak: bool) -> ast.expr:
+        op = self.rng.choice(gx.BINOPS)
+        left = ast.Name(self.rng.choice(GRAMMAR_NAMES[:4]), ast.Load()) if op in (ast.Pow, ast.LShift) else self.sub(d, 2, leak)
+        return ast.BinOp(left, op(), self.sub(d, 2, leak))
+
+
+class GrammarExprs:
+    """Draws expression texts CPython evaluates without error and without warning at the place they are written.
+
+    Rejection sampling: a candidate is compiled and evaluated as a parameter default of a probe function (inside a probe
+    class for class bodies: comprehensions and ``:=`` obey other rules there) in a namespace equal to what the grammar header
+    binds. ``draw`` also reports the names the evaluation bound (``:=`` outside of lambdas), so that the generator can unbind
+    them again: the workload is about expressions, not about members created by them."""
+
+    def __init__(self, rng: random.Random) -> None:
+        import collections
+
+        self.rng = rng
+        self.tries = 0
+        self.rejected: collections.Counter = collections.Counter()
+        support: dict = {"__name__": ANY_MODULE}
+        exec(compile(ANY_SOURCE, ANY_MODULE, "exec"), support)  # noqa: S102
+        self.ns = {"__name__": "vfc17probe", "_va": support["Any"], "_vb": support["Any"], "_vmark": support["mark"],
+                   "_vbase": support["base"], "_vft": functools, "_vs": "id", "_vn": 4}
+
+    def text(self, depth: int, holes: float) -> str:
+        gen = _EvalGen(self.rng, holes)
+        out = ast.unparse(gen.expr(depth))
+        for hole in gen.holes:
+            out = out.replace(hole, self.fstring_312(), 1)
+        return out
+
+    def field(self) -> str:
+        """Text for a replacement field: any expression; what would end the field early (``:`` of a lambda, ``:=``,
+        a leading brace) sits in parentheses or after a blank."""
+        inner = self.text(self.rng.choice([0, 1, 1, 2]), 0.0)
+        if self.rng.random() < 0.5 or not (inner[0].isalnum() or inner[0] in "_[('\""):
+            inner = "(" + inner + ")"
+        if inner.startswith(("lambda", "not ")) or ":=" in inner.split("(")[0]:
+            inner = "(" + inner + ")"
+        return inner
+
+    def fstring_312(self) -> str:
+        """An f-string spelled as PEP 701 (Python 3.12) allows: f-strings nested in replacement fields, in call arguments
+        inside a field and in format specifications, with the quotes of the enclosing literal reused."""
+        r = self.rng
+        q = r.choice(['"', '"', "'", '"""'])
+        alt = r.choice([q, q, q, "'" if q != "'" else '"'])  # mostly the same quotes again; sometimes the pre-3.12 alternation
+        t1, t2 = r.choice(FTEXT_312), r.choice(FTEXT_312)
+        x = self.field()
+        form = r.randrange(8)
+        if form == 0:
+            return f"f{q}{t1}{{{x}}}{t2}{q}"                                   # string literals of the field may reuse the quote
+        if form == 1:
+            return f"f{q}{{f{alt}{{{x}}}{alt}}}{t2}{q}"                        # nested once
+        if form == 2:
+            return f"f{q}{t1}{{f{alt}{{f{alt}{{{x}}}{alt}}}{alt}}}{q}"         # nested twice
+        if form == 3:
+            return f"f{q}{t1}{{{x}!r:>{{_vn}}}}{q}"                            # conversion, field inside the format spec
+        if form == 4:
+            return f"f{q}{{_va(f{alt}{{{x}}}:{{_vn}}{alt})}}{q}"               # nested f-string as a call argument in a field
+        if form == 5:
+            return f"f{q}{{_va:{{f{alt}{{_vn}}{alt}}}}}{t2}{q}"                # nested f-string inside a format spec
+        if form == 6:
+            return f"f{q}{{f{alt}{t1}{{_vs}}{alt} + {x}}}{{{self.field()}}}{q}"  # nested f-string as an operand, two fields
+        return f"f{q}{{{x}=}}{t2}{q}"                                          # self-documenting field
+
+    def draw(self, in_class: bool) -> tuple[str, list[str]]:
+        import warnings
+
+        for _ in range(300):
+            self.tries += 1
+            try:
+                text = self.text(self.rng.choice([1, 2, 2, 3, 3, 4]), 0.12)
+            except Exception as exc:  # noqa: BLE001  -- a tree ast.unparse cannot write
+                self.rejected["unparse " + type(exc).__name__] += 1
+                continue
+            if len(text) > 240 or "\n" in text:
+                self.rejected["long"] += 1
+                continue
+            ns = dict(self.ns)
+            code = (f"class _VfProbe:\n    def probe(self, p={text}):\n        pass\n" if in_class
+                    else f"def _vf_probe(p={text}):\n    pass\n")
+            try:
+                with warnings.catch_warnings():
+                    warnings.simplefilter("error")
+                    exec(compile(code, "<c17-probe>", "exec"), ns)  # noqa: S102
+                    func = ns["_VfProbe"].probe if in_class else ns["_vf_probe"]
+                    repr(func.__defaults__)
+            except Exception as exc:  # noqa: BLE001
+                self.rejected[type(exc).__name__] += 1
+                continue
+            if in_class:
+                bound = [k for k in vars(ns["_VfProbe"]) if not k.startswith("__") and k != "probe"]
+            else:
+                bound = [k for k in ns if k not in self.ns and k not in ("_vf_probe", "__builtins__")]
+            return text, sorted(bound)
+        return "0", []
+
+
+def grammar_expr(sc: Scope) -> str:
+    """An evaluable expression of the grammar for the place `sc` describes; names it binds are queued for unbinding."""
+    text, bound = sc.ctx["grammar"].draw(bool(sc.ctx.get("in_class")))
+    sc.ctx.setdefault("unbind", set()).update(bound)
+    return text
+
+
+def unbind_stmt(sc: Scope, ind: str) -> str:
+    """``del`` statement for the names bound by ``:=`` in the expressions drawn since the last call."""
+    names = sorted(sc.ctx.pop("unbind", ()))
+    return f"{ind}del {', '.join(names)}\n" if names else ""
+
+
+def grammar_args(rng: random.Random, sc: Scope) -> str:
+    """Argument list (positional and keyword) of grammar expressions for a decorator factory / a base-class call."""
+    args = [grammar_expr(sc) for _ in range(rng.choice([1, 1, 1, 2]))]
+    if rng.random() < 0.3:
+        args.append("key=" + grammar_expr(sc))
+    return ", ".join(args)
 
 
 def gen_prelude(rng: random.Random, tag: str) -> tuple[str, list[str]]:
@@ -305,15 +569,24 @@ def gen_def(rng: random.Random, sc: Scope, ind: str, name: str, first: str | Non
     if PEP695 and rng.random() < 0.08:
         tp = "[T]"
         sc = sc.child(evaluable=["T", "T"], deferred=["T"])
-    src = "".join(f"{ind}@{d}\n" for d in pre)
+    grammar = sc.ctx.get("grammar") is not None
+    sc.ctx["in_class"] = bool(ind)
+    decos = list(pre)
     for d in deco or ():
         # functools.wraps decorators (the signature CPython reports is the decorated function's) and identity decorators
         if rng.random() < 0.15:
-            src += f"{ind}@{d}\n"
+            decos.append(d)
+    if grammar and rng.random() < 0.12:
+        # decorator factories called with expressions of the whole grammar: an identity decorator anywhere in the stack,
+        # the standard library's cache (the decorated object is no plain function any more) next to the function
+        decos.insert(rng.randint(0, len(decos)), f"_vmark({grammar_args(rng, sc)})")
+    if grammar and rng.random() < 0.06:
+        decos.append(f"_vft.lru_cache(maxsize={rng.choice(['None', '8', '_vn'])}, typed={grammar_expr(sc)})")
+    src = "".join(f"{ind}@{d}\n" for d in decos)
     src += f"{ind}{kw} {name}{tp}{rand_params(rng, sc, first)}:"
     if doc:
         src += "\n" + doc_stmt(rng, ind + "    ", doc).rstrip("\n")
-    return src + f"\n{ind}    return 1\n"
+    return src + f"\n{ind}    return 1\n" + unbind_stmt(sc, ind)
 
 
 TRUE_CONDITIONS = ['__name__ != "__main__"', 'len("ab") == 2', "isinstance(1, int)", 'not ""', "True", "1", "not False"]
@@ -454,7 +727,20 @@ def maybe_wrap(rng: random.Random, sc: Scope, ind: str, taken: str, name: str, k
 def gen_class(rng: random.Random, sc: Scope, name: str, bases: list[str], deco: list[str] | None, indent: str = "", depth: int = 0,
               outer: tuple = ()) -> str:
     ind = indent + "    "
-    src = f"{indent}class {name}" + (f"({', '.join(bases)})" if bases else "") + ":\n"
+    src, after = "", ""
+    if sc.ctx.get("grammar") is not None:
+        # expressions of the whole grammar in the class statement: arguments of a decorator factory, of a call that computes
+        # a base class (written last: a fresh class may follow any other base in the MRO), values of class keywords
+        sc.ctx["in_class"] = bool(indent)
+        bases = list(bases)
+        if rng.random() < 0.12:
+            src += f"{indent}@_vmark({grammar_args(rng, sc)})\n"
+        if rng.random() < 0.2:
+            bases.append(f"_vbase({grammar_args(rng, sc)})")
+            if rng.random() < 0.3:
+                bases.append(f"tag={grammar_expr(sc)}")
+        after = unbind_stmt(sc, indent)
+    src += f"{indent}class {name}" + (f"({', '.join(bases)})" if bases else "") + ":\n"
     if rng.random() < 0.6:
         src += doc_stmt(rng, ind, f"Class {name}.")
     # names of classes that are no module-level globals (this class when nested, its own nested class): a string
@@ -490,11 +776,12 @@ def gen_class(rng: random.Random, sc: Scope, name: str, bases: list[str], deco: 
         if rng.random() < 0.002:
             src += f"{ind}_{mname.lstrip('_')}_u, _{mname.lstrip('_')}_v = 1, 2\n"  # unpacking assignment: binds two (private) class attributes
     if rng.random() < 0.4:
+        msc.ctx["in_class"] = True
         sig = "(self, a=0)" if rng.random() < 0.5 else rand_params(rng, msc, "self").split(" -> ")[0]
-        src += f"{ind}def __init__{sig}:\n{ind}    self.inst_{name.lower()} = 0\n"
+        src += f"{ind}def __init__{sig}:\n{ind}    self.inst_{name.lower()} = 0\n" + unbind_stmt(msc, ind)
     if inner and not inner_first:
         src += gen_class(rng, sc, inner, [], deco, ind, depth + 1, outer=(name,))
-    return src
+    return src + after
 
 
 class Mod:
@@ -656,6 +943,13 @@ def gen_module(rng: random.Random, name: str, mod: Mod, prevs: list[Mod]) -> str
     if rng.random() < 0.6:
         prelude, objects = gen_prelude(rng, m)
         src += prelude
+    grammar = None
+    if rng.random() < 0.5:
+        # names for expressions of the whole grammar (defaults, decorator and base-class arguments)
+        grammar = getattr(rng, "vf_grammar", None)
+        if grammar is None:
+            grammar = rng.vf_grammar = GrammarExprs(rng)
+        src += GRAMMAR_HEADER
     head, src = src, ""
     deco = [d for st, d in IDENTITY_DECORATORS.items() if st in lines]
     if use_wraps:
@@ -674,7 +968,7 @@ def gen_module(rng: random.Random, name: str, mod: Mod, prevs: list[Mod]) -> str
         plan.append(("__version__", "value"))
     cap = lambda nm: nm.capitalize() if not nm.startswith("_") else "_" + nm[1:].capitalize()  # noqa: E731
     later = [cap(nm) for nm, kind in plan if kind == "class"]
-    ctx = {"pkg": name, "tag": m, "n": 0, "objects": objects}
+    ctx = {"pkg": name, "tag": m, "n": 0, "objects": objects, "grammar": grammar}
     for nm, kind in plan:
         sc = Scope(future, evaluable, deferred + later, defaults, ctx)
         if kind == "function":
@@ -742,6 +1036,8 @@ def gen_package(rng: random.Random, name: str) -> dict[str, str]:
             init += f"from {name} import {m}\n"
     init += "top_value = 1\n"
     files[f"{name}/__init__.py"] = init
+    if any(GRAMMAR_HEADER in text for text in files.values()):
+        files[ANY_MODULE + ".py"] = ANY_SOURCE  # next to the package, not in it
     return files
 
 
@@ -842,6 +1138,101 @@ def _collect(body: list, label: str, out: Bindings) -> None:  # noqa: C901, PLR0
                                  and x.name in imported)
         for sub_label, sub in _sub_bodies(st):
             _collect(sub, sub_label, out)
+
+
+def _reuses_quotes(text: str) -> bool:
+    """Does an f-string of `text` hold, inside a replacement field, a string literal or f-string delimited by the quotes of
+    an enclosing f-string (the spelling PEP 701 made legal)? Decided by CPython's tokenizer."""
+    import io
+    import tokenize
+
+    open_quotes: list[str] = []
+    if not hasattr(tokenize, "FSTRING_START"):
+        return False  # before Python 3.12 an f-string is one token and cannot hold its own quotes
+    try:
+        for tok in tokenize.generate_tokens(io.StringIO(text + "\n").readline):
+            if tok.type == tokenize.FSTRING_START:
+                quote = tok.string.lstrip("rRfFbBuU")
+                if quote in open_quotes:
+                    return True
+                open_quotes.append(quote)
+            elif tok.type == tokenize.FSTRING_END:
+                open_quotes.pop()
+            elif tok.type == tokenize.STRING and open_quotes:
+                body = tok.string.lstrip("rRfFbBuU")
+                if (body[:3] if body[:3] in ('"""', "'''") else body[:1]) in open_quotes:
+                    return True
+    except (tokenize.TokenError, SyntaxError, IndexError):
+        return False
+    return False
+
+
+def expr_features(node: ast.AST | str, text: str | None = None) -> set[str]:  # noqa: C901
+    """Shapes of an expression as CPython's parser (and tokenizer) read it: evidence of the input classes reached."""
+    if isinstance(node, str):
+        text, node = node, ast.parse(node, mode="eval").body
+    out: set[str] = set()
+    for n in ast.walk(node):
+        if isinstance(n, ast.JoinedStr):
+            out.add("fstring")
+        elif isinstance(n, ast.FormattedValue):
+            if any(isinstance(x, ast.JoinedStr) for x in ast.walk(n.value)):
+                out.add("nested_fstring")
+            if n.format_spec is not None and any(isinstance(x, ast.FormattedValue) for x in ast.walk(n.format_spec)):
+                out.add("fstring_field_in_format_spec")
+        elif isinstance(n, ast.NamedExpr):
+            out.add("walrus")
+        elif isinstance(n, ast.Lambda):
+            out.add("lambda")
+        elif isinstance(n, ast.IfExp):
+            out.add("conditional")
+        elif isinstance(n, (ast.ListComp, ast.SetComp, ast.DictComp, ast.GeneratorExp)):
+            out.add("comprehension")
+        elif isinstance(n, ast.Starred) or (isinstance(n, ast.Dict) and None in n.keys) or (isinstance(n, ast.keyword) and n.arg is None):
+            out.add("unpacking")
+        elif isinstance(n, ast.Slice):
+            out.add("slice")
+        elif isinstance(n, (ast.BinOp, ast.BoolOp, ast.UnaryOp, ast.Compare)):
+            out.add("operator")
+        elif isinstance(n, (ast.Call, ast.Subscript, ast.Attribute)):
+            out.add("call_subscript_attribute")
+    if "fstring" in out and text is not None and _reuses_quotes(text):
+        out.add("fstring_reusing_quotes")
+    return out
+
+
+def _find_defs(body: list, name: str) -> list:
+    found = []
+    for st in body:
+        if isinstance(st, (ast.FunctionDef, ast.AsyncFunctionDef, ast.ClassDef)) and st.name == name:
+            found.append(st)
+        for _, sub in _sub_bodies(st):
+            found += _find_defs(sub, name)
+    return found
+
+
+def find_def(src: str, class_path: list[str], name: str):  # noqa: ANN201
+    """The def / class statement CPython ran for `name` in the module body / the given class body (written last), or None."""
+    if not src:
+        return None
+    body = _parse(src).body
+    for cname in class_path:
+        classes = _find_classes(body, cname)
+        if not classes:
+            return None
+        body = sorted(classes, key=lambda c: c.lineno)[-1].body
+    found = _find_defs(body, name)
+    return sorted(found, key=lambda c: c.lineno)[-1] if found else None
+
+
+def observe_exprs(rec, src: str, site: str, nodes: list) -> None:  # noqa: ANN001
+    """Evidence: which expression shapes were written at `site` (default / decorator / base) of a compared definition."""
+    for node in nodes:
+        if isinstance(node, (ast.Name, ast.Constant)):
+            continue
+        rec.count(f"{site}_exprs_compound")
+        for feat in expr_features(node, ast.get_source_segment(src, node)):
+            rec.count(f"{site}_expr_{feat}")
 
 
 def _find_classes(body: list, name: str) -> list[ast.ClassDef]:
@@ -1240,6 +1631,72 @@ def compare_params(rec, sfunc, dfunc, pyobj, label: str):  # noqa: ANN001, ANN20
     return None
 
 
+def _is_dotted_name(node: ast.AST) -> bool:
+    while isinstance(node, ast.Attribute):
+        node = node.value
+    return isinstance(node, ast.Name)
+
+
+def _reached(cls, base) -> str | None:  # noqa: ANN001
+    """Path of the object a stored base (expression or string) reaches in the tree the class lives in, as resolved_bases does."""
+    from _griffe.exceptions import AliasResolutionError, CyclicAliasError
+
+    path = base if isinstance(base, str) else base.canonical_path
+    try:
+        obj = cls.modules_collection.get_member(path)
+        return (obj.final_target if obj.is_alias else obj).path
+    except (AliasResolutionError, CyclicAliasError, KeyError):
+        return None
+
+
+def compare_computed_bases(rec, src: str, node: ast.ClassDef, sfin, dfin, pycls, where: str):  # noqa: ANN001, ANN201
+    """Base classes of a class statement with a base that is no (dotted) name. Witnesses: the statement as CPython parsed it
+    (one stored base per base expression, in order) and ``__bases__`` of the class CPython built (what the dynamic agent
+    must list). Bases written as names must reach the same class for both agents, position by position."""
+    rec.count("class_bases_vs_source")
+    rec.count("class_bases_vs_cpython")
+    observe_exprs(rec, src, "base", [a for bn in node.bases if isinstance(bn, ast.Call) for a in [*bn.args, *[k.value for k in bn.keywords]]])
+    observe_exprs(rec, src, "class_keyword", [k.value for k in node.keywords])
+    written = [ast.unparse(bn) for bn in node.bases]
+    if len(sfin.bases) != len(written):
+        return (f"{where}: the static agent does not hold one base per base expression of the class statement",
+                [str(b) for b in sfin.bases], written, None, [])
+    real = [f"{b.__module__}.{b.__qualname__}" for b in pycls.__bases__]
+    if [str(b) for b in dfin.bases] != real:
+        return (f"{where}: bases of the dynamic agent differ from __bases__ of the class CPython built", [str(b) for b in dfin.bases],
+                real, None, [])
+    if any(isinstance(bn, ast.Starred) for bn in node.bases) or len(real) != len(written):
+        return None
+    for i, bn in enumerate(node.bases):
+        if isinstance(bn, ast.Call):
+            rec.count("class_base_is_call")
+        if _is_dotted_name(bn):
+            sreach, dreach = _reached(sfin, sfin.bases[i]), _reached(dfin, dfin.bases[i])
+            if sreach is None or sreach != dreach:
+                return (f"{where}: base class {written[i]} reaches different objects for the two agents", dreach, sreach, None, [])
+    return None
+
+
+def compare_decorators(rec, src: str, node, sfin, pyraw, where: str):  # noqa: ANN001, ANN201
+    """Decorators of a def / class statement. Witnesses: the statement as CPython parsed it (the static agent holds one
+    decorator per decorator expression) and the object CPython built (a function wrapped by the standard library's cache is
+    what the static agent labels ``cached``; a property is compared by the caller)."""
+    rec.count("decorators_vs_source")
+    observe_exprs(rec, src, "decorator", [a for dn in node.decorator_list if isinstance(dn, ast.Call)
+                                          for a in [*dn.args, *[k.value for k in dn.keywords]]])
+    if len(sfin.decorators) != len(node.decorator_list):
+        return (f"{where}: the static agent does not hold one decorator per decorator expression of the statement",
+                [str(d.value) for d in sfin.decorators], [ast.unparse(dn) for dn in node.decorator_list], None, [])
+    if sfin.is_function:
+        cached = isinstance(pyraw, functools._lru_cache_wrapper)  # noqa: SLF001
+        if cached:
+            rec.count("cached_label_vs_cpython")
+        if cached != ("cached" in sfin.labels):
+            return (f"{where}: label `cached` of the static agent disagrees with the object CPython built", sorted(sfin.labels),
+                    type(pyraw).__name__, None, [])
+    return None
+
+
 def walk_compare(rec, files: dict, pkgname: str, sroot, droot):  # noqa: ANN001, ANN201, C901, PLR0912, PLR0915
     from _griffe.exceptions import AliasResolutionError, CyclicAliasError
 
@@ -1394,8 +1851,16 @@ def walk_compare(rec, files: dict, pkgname: str, sroot, droot):  # noqa: ANN001,
                                           f"{s.path}.{n}")
                 if res:
                     return res
+            # the statement CPython ran for a definition of this very body (not for what an import brought here)
+            node = find_def(src, cpath, n) if not (sm.is_alias or dm.is_alias) and (sfin.is_function or sfin.is_class) else None
+            if node is not None:
+                res = compare_decorators(rec, src, node, sfin, resolve_py(pkgname, sfin.path, raw=True), f"{s.path}.{n}")
+                if res:
+                    return res
             if sfin.is_function:
                 pyobj = resolve_py(pkgname, sfin.path)
+                if isinstance(node, (ast.FunctionDef, ast.AsyncFunctionDef)):
+                    observe_exprs(rec, src, "default", [*node.args.defaults, *[x for x in node.args.kw_defaults if x is not None]])
                 res = compare_params(rec, sfin, dfin, pyobj, sfin.path)
                 if res:
                     fid, tried = classify(res[0], sfin, dfin, res[3])
@@ -1414,6 +1879,20 @@ def walk_compare(rec, files: dict, pkgname: str, sroot, droot):  # noqa: ANN001,
                     rec.count("cached_properties_compared")
             elif sfin.is_class:
                 rec.count("classes_compared")
+                pycls = resolve_py(pkgname, sfin.path)
+                if isinstance(node, ast.ClassDef) and inspect.isclass(pycls) and any(
+                        not _is_dotted_name(bn) for bn in node.bases):
+                    # a base class computed by an expression: no agent can name it statically; CPython holds the classes
+                    res = compare_computed_bases(rec, src, node, sfin, dfin, pycls, f"{s.path}.{n}")
+                    if res:
+                        return res
+                    stack.append((sfin, dfin, [*cpath, n]))
+                    continue
+                if isinstance(node, ast.ClassDef):
+                    rec.count("class_bases_vs_source")
+                    if len(sfin.bases) != len(node.bases):
+                        return (f"{s.path}.{n}: the static agent does not hold one base per base expression of the class statement",
+                                [str(b) for b in sfin.bases], [ast.unparse(bn) for bn in node.bases], None, [])
                 # a base may be named through a re-export (one-hop alias path): compare the classes the names reach
                 sb = [b.path for b in sfin.resolved_bases]
                 db = [b.path for b in dfin.resolved_bases]
@@ -1436,7 +1915,7 @@ def walk_compare(rec, files: dict, pkgname: str, sroot, droot):  # noqa: ANN001,
     return deferred
 
 
-def resolve_py(pkgname: str, path: str):  # noqa: ANN201
+def resolve_py(pkgname: str, path: str, raw: bool = False):  # noqa: ANN201
     parts = path.split(".")
     for i in range(len(parts), 0, -1):
         mod = sys.modules.get(".".join(parts[:i]))
@@ -1447,6 +1926,8 @@ def resolve_py(pkgname: str, path: str):  # noqa: ANN201
                     obj = inspect.getattr_static(obj, p)
                     if isinstance(obj, (staticmethod, classmethod)):
                         obj = obj.__func__
+                if raw:
+                    obj = inspect.unwrap(obj, stop=lambda f: isinstance(f, functools._lru_cache_wrapper))  # noqa: SLF001
             except AttributeError:
                 return None
             return obj
